@@ -104,6 +104,10 @@ func outer() error {
 	err = run(ctx, plugin)
 	if err != nil {
 		log.Infof("Exited with error: %s", err.Error())
+		// A failed start (a refused database upgrade for one) must not leave
+		// a half-initialised plugin behind that keeps handling peer messages
+		// and commands: end the process.
+		return err
 	}
 
 	// Wait for context to be done and check if the context has collected any
@@ -384,6 +388,19 @@ func run(ctx context.Context, lightningPlugin *clightning.ClightningClient) erro
 		}
 	}
 
+	// Try to upgrade version if needed. This comes before the message handler
+	// and the commands go live: a database this release must not touch is
+	// not to be written to, and no swap may appear between the check for
+	// active swaps and the version being stored.
+	versionService, err := version.NewVersionService(swapDb)
+	if err != nil {
+		return err
+	}
+	err = versionService.SafeUpgrade(swapService)
+	if err != nil {
+		return err
+	}
+
 	// The swaps of the last run are restored further down (RecoverSwaps); until
 	// then nobody else may take their channels.
 	err = swapService.ReserveStoredChannels()
@@ -448,16 +465,6 @@ func run(ctx context.Context, lightningPlugin *clightning.ClightningClient) erro
 	// FIXME: Once we reworked the recovery service (non-blocking) we want to
 	// set ready after the recovery to avoid race conditions.
 	lightningPlugin.SetReady()
-
-	// Try to upgrade version if needed
-	versionService, err := version.NewVersionService(swapDb)
-	if err != nil {
-		return err
-	}
-	err = versionService.SafeUpgrade(swapService)
-	if err != nil {
-		return err
-	}
 
 	// Check for active swaps and compare with version
 	err = swapService.RecoverSwaps()
